@@ -6,6 +6,7 @@ mod model;
 mod p_kmer;
 mod p_minfile;
 mod p_min;
+mod p_cli;
 mod p_count;
 mod p_covfile;
 mod p_file;
@@ -96,6 +97,8 @@ fn main() {
     let mut corpus_dir = String::new();
     let mut replay = String::new();
     let mut work = "/verif/.cache/work".to_string();
+    let mut cli_bin = "/verif/.cache/target-cli/release/kmertools".to_string();
+    let mut pymod = "/verif/.cache/pymod".to_string();
     let mut i = 1;
     while i < args.len() {
         match args[i].as_str() {
@@ -123,7 +126,12 @@ fn main() {
                 replay = args[i + 1].clone();
                 i += 1
             }
-            "--cli" | "--pymod" => {
+            "--cli" => {
+                cli_bin = args[i + 1].clone();
+                i += 1
+            }
+            "--pymod" => {
+                pymod = args[i + 1].clone();
                 i += 1
             }
             "--work" => {
@@ -144,6 +152,7 @@ fn main() {
         println!("{}", p_tables::dump());
         return;
     }
+    let _ = &pymod;
     let model = Model::new(&model_path);
     let corpus_lines: Vec<String> = if !replay.is_empty() {
         let text = std::fs::read_to_string(&replay).unwrap_or_default();
@@ -192,6 +201,9 @@ fn main() {
         "C14" => p_file::run_files("C14", eff_tier, seed, &model, corpus_lines, &work),
         "C07" => p_count::run_c07(eff_tier, seed, &model, corpus_lines, &work),
         "C10" => p_minfile::run_c10(eff_tier, seed, &model, corpus_lines, &work),
+        "C15" => p_cli::run_c15(eff_tier, seed, &model, corpus_lines, &cli_bin, &work),
+        "C16" => p_cli::run_c16(eff_tier, seed, &model, corpus_lines, &cli_bin, &work),
+        "C17" => p_cli::run_c17(eff_tier, seed, &model, corpus_lines, &cli_bin, &work),
         "C06" => p_io::run_c06(eff_tier, seed, &model, corpus_lines, &work),
         "C09" => p_min::run_c09(eff_tier, seed, &model, corpus),
         "C18" => p_min::run_c18(eff_tier, seed, &model, corpus),
